@@ -309,3 +309,86 @@ def targets():
             ts.append(target_element(module, cname, sym, eq, params))
     ts.append(target_tlm())
     return ts
+
+
+# ------------------------------------------------------------------------------------------------ Tlm: classification of sub-circuits
+def target_evaluate_subcircuit():
+    """transmission_line_model._evaluate_subcircuit on two-point arrays whose points are classified {zero, tiny (non-zero, below any
+    tolerance), finite, infinite}: a sub-circuit is `short` exactly when EVERY impedance is exactly 0, `open` exactly when every
+    impedance is infinite (or the connection is None and an open array was supplied), a mix of infinite and other values is an
+    InfiniteImpedance, and the impedances handed on are the connection's own.  (`isclose`/`allclose` are modelled too, so that a
+    tolerance-based classification is a refuted obligation rather than an unsupported construct.)"""
+    import itertools
+    from pyvc import overload as O
+    TLM = "circuit/transmission_line_model"
+    qual = "_evaluate_subcircuit"
+
+    def run(sess: Session):
+        class M(list):
+            def any(self):
+                return any(self)
+
+            def all(self):
+                return all(self)
+
+            def __invert__(self):
+                return M(not x for x in self)
+
+        class Z2:
+            def __init__(self, classes):
+                self.c = tuple(classes)
+                self.size = len(self.c)
+                self.shape = (len(self.c),)
+
+            def __eq__(self, other):
+                if other == 0:
+                    return M(c == "zero" for c in self.c)
+                raise O.Unsupported("array comparison with something else than 0")
+            __hash__ = None
+
+        class InfiniteImpedance(Exception):
+            pass
+        made = []
+        ns = {"isinf": lambda z: M(c == "inf" for c in z.c), "where": lambda m: (type("I", (), {"size": sum(1 for x in m if x)})(),),
+              "isclose": lambda z, v, **kw: M(c in ("zero", "tiny") for c in z.c) if v == 0 else O.Unsupported, "allclose": lambda z, v, **kw: all(c in ("zero", "tiny") for c in z.c) if v == 0 else None,
+              "Subcircuit": lambda **kw: made.append(kw) or kw, "InfiniteImpedance": InfiniteImpedance, "all": all, "any": any, "len": len}
+        O.load(TLM, [qual], ns)
+        fn = ns[qual]
+        f = type("F", (), {"size": 2, "shape": (2,)})()
+        for classes in itertools.product(("zero", "tiny", "finite", "inf"), repeat=2):
+            z = Z2(classes)
+            con = type("Con", (), {"_impedance": lambda s, ff, _z=z: _z})()
+            made.clear()
+            err = None
+            try:
+                out = fn(con, f, None)
+            except InfiniteImpedance as ex:
+                err = ex
+            n_inf = sum(1 for c in classes if c == "inf")
+            tag = f"[{classes[0]},{classes[1]}]"
+            if 0 < n_inf < 2:
+                sess.check("post", [], z3.BoolVal(err is not None), 0, label=f"a mix of infinite and other impedances is refused (InfiniteImpedance){tag}")
+                continue
+            ok = err is None and len(made) == 1 and made[0].get("impedances") is z
+            sess.check("post", [], z3.BoolVal(ok), 0, label=f"the connection's own impedances are handed on{tag}")
+            if ok:
+                sess.check("post", [], z3.BoolVal(made[0].get("is_open") is (n_inf == 2)), 0, label=f"open  <=>  every impedance is infinite{tag}")
+                sess.check("post", [], z3.BoolVal(bool(made[0].get("is_short")) == all(c == "zero" for c in classes)), 0, label=f"short  <=>  every impedance is exactly zero{tag}")
+        made.clear()
+        marker = object()
+        out = fn(None, f, marker)
+        sess.check("post", [], z3.BoolVal(len(made) == 1 and made[0] == {"impedances": marker, "is_open": True, "is_short": False}), 0, label="con is None: open, with the supplied open array")
+        refused = False
+        try:
+            fn(None, f, None)
+        except TypeError:
+            refused = True
+        sess.check("post", [], z3.BoolVal(refused), 0, label="con is None without an open array is refused (TypeError)")
+    return (f"{TLM}:{qual}", TLM, qual, run)
+
+
+_targets_c02_core = targets
+
+
+def targets():      # noqa: F811
+    return _targets_c02_core() + [target_evaluate_subcircuit()]
